@@ -154,6 +154,10 @@ def sub_regions(df, subs, emb, foreign=False):
 
 def build_mesh(df, m, subs, emb):
     names = lat.names_for(m)
+    if len(m["n"]) < 4:
+        # the dimension names also rotate with the cell counts and the layout, so that every tier meets 3-d meshes
+        # whose names are not x, y, z (OVF/VTK readers rename the axes: the reloaded subregions must follow - seed C14-3)
+        names = lat.NAME_SCHEMES[(sum(m["n"]) + len(subs) + m["lo"][0] // 4) % 3][: len(m["n"])]
     if emb.name == "unit" and (sum(m["lo"]) + sum(m["n"]) + len(subs)) % 2 == 0:
         # integer-cornered variant (lattice coordinates are the coordinates): exercises the int64 corner paths
         nd = len(m["n"])
